@@ -14,7 +14,8 @@ CHECKS = {
              "(table exported from the live module) with the Unicode definition written in TLA+, which "
              "decides validity for every byte string; every product transition is replayed into the real "
              "validate_utf8, and message-level behaviour (fragments, close reasons, validation off) is "
-             "validated as traces of the receive machine.",
+             "validated as traces of the receive machine; behaviours of RecvSim.tla (ill-formed and well-formed text frames, "
+             "validation on and off) enumerated by TLC are replayed into the real object and the predicted history compared.",
         note="Trusts TLC, the table export, and that the pure-Python validator is the one in use "
              "(wsaccel absent).", ref="4 C06"),
 }
